@@ -341,7 +341,7 @@ fn peer_assignments(others: &[NodeId], choices: &[Peer]) -> Vec<BTreeMap<NodeId,
 pub fn run(tier: Tier) -> i32 {
     let mut report = Report::new("C06", tier, "fault_enumeration");
     let mut scenarios = Vec::new();
-    let kinds: Vec<Kind> = if tier.is_thorough() { vec![Kind::Put, Kind::PutMany, Kind::Del, Kind::DelMany] } else { vec![Kind::Put, Kind::DelMany] };
+    let kinds: Vec<Kind> = vec![Kind::Put, Kind::PutMany, Kind::Del, Kind::DelMany];
     let pres: Vec<Option<Consistency>> = if tier.is_thorough() {
         vec![None, Some(Consistency::One), Some(Consistency::Two)]
     } else {
